@@ -164,6 +164,24 @@ Definition run_op (sy : system) (o : json) (now : Z) : system * json :=
                                          (sem_of_table (jget_d "sem" o)) (jnorm (jget_d "event" o)) in
         (sy', render sy' (LEvent JNull) (RChildren (omap (map (fun t => (fst (fst t), snd t))) r)))
     end
+  else if String.eqb (jfS "op" o) "event" && (match jget "sem" o with Some _ => true | None => false end) then
+    (* FindRules.Do on a plain event: a candidate whose condition does not parse fails RuleFromMap and
+       is skipped (repair of D53) *)
+    let sem := sem_of_table (jget_d "sem" o) in
+    let '(sy', r) := sys_step sy (jfS "loc" o) (dec_ctx o) (dec_env o now) (LEvent (jnorm (jget_d "event" o))) in
+    let cond_bad (id : string) : bool :=
+      existsb (fun kv => match alookup id (st_facts (l_state (snd kv))) with
+                         | Some f => match jget "rule" f with
+                                     | Some body => negb (condition_ok sem body)
+                                     | None => false
+                                     end
+                         | None => false
+                         end) sy' in
+    (sy', render sy' (LEvent JNull)
+                 (match r with
+                  | RChildren (Ok ch) => RChildren (Ok (filter (fun c => negb (cond_bad (fst c))) ch))
+                  | other => other
+                  end))
   else if String.eqb (jfS "op" o) "addrule" && (match jget "sem" o with Some _ => true | None => false end) then
     let '(sy', r) := with_loc sy (jfS "loc" o)
                               (fun l => loc_add_rule_c (sem_of_table (jget_d "sem" o)) l (dec_ctx o) (dec_env o now)
@@ -293,6 +311,17 @@ Definition rules_have_direct_when (sy : system) : bool :=
                                                                        | None => true
                                                                        end
                                                     | _ => false
+                                                    end
+                                        | None => false
+                                        end) (st_facts (l_state (snd kv)))) sy.
+
+(** D59: a stored rule that has a "schedule" member AND a `when`: the indexed state never indexes it
+    (scheduled rules are reached by trigger! only), the linear state matches its `when` like any other. *)
+Definition rules_have_sched_and_when (sy : system) : bool :=
+  existsb (fun kv => existsb (fun f => match jget "rule" (snd f) with
+                                        | Some r => match jget "schedule" r, jget "when" r with
+                                                    | Some _, Some _ => true
+                                                    | _, _ => false
                                                     end
                                         | None => false
                                         end) (st_facts (l_state (snd kv)))) sy.
@@ -437,6 +466,7 @@ Definition kf_of (sy : system) (o : json) : list string :=
      (if existsb has_propvar cps then ["D9"] else []) ++
      (if rules_have_propvar sy then ["D6"] else []) ++
      (if rules_have_direct_when sy then ["D30"] else []) ++
+     (if rules_have_sched_and_when sy then ["D59"] else []) ++
      (if shared_rule_ids sy then ["D37"] else []) ++
      (if event_risky (jnorm (jget_d "event" o)) then ["D7"] else []))%list
   else [].
@@ -643,7 +673,12 @@ Definition step_acc (a : acc) (o : json) : acc :=
       else
       let try now :=
         let '(sy', m) := run_op sy0 o now in
-        let amb := sys_amb sy' || op_risky sy0 o || jfB "amb" m in
+        (* a forest with BOTH a duplicate rule id and an ancestor loop: the code checks for duplicates
+           while it walks (and reports whichever it meets first), the model after the walk *)
+        let loop_or_dup x := String.eqb (jfS "class" x) E_loop || String.eqb (jfS "class" x) E_dup in
+        let amb := sys_amb sy' || op_risky sy0 o || jfB "amb" m ||
+                   ((String.eqb (jfS "op" o) "event" || String.eqb (jfS "op" o) "process") &&
+                    loop_or_dup m && loop_or_dup obs && negb (String.eqb (jfS "class" m) (jfS "class" obs))) in
         let calls_ok := match jget "cron" o with
                         | Some (JArr oc) => String.eqb (jfS "op" o) "process" || same_calls (model_calls sy0 sy' o m now) oc
                         | _ => true
